@@ -79,12 +79,14 @@ class Desugarer:
     def number_loops(fn):
         k = 0
         c = 0
-        for node in ast.walk(fn):
-            pass
+        r = 0
         # pre-order, source order
         def visit(n):
-            nonlocal k, c
+            nonlocal k, c, r
             for ch in ast.iter_child_nodes(n):
+                if isinstance(ch, ast.Raise):
+                    ch._raise_id = r
+                    r += 1
                 if isinstance(ch, (ast.FunctionDef, ast.Lambda)) and ch is not fn:
                     # nested defs get their own numbering when they are verified/inlined
                     if isinstance(ch, ast.FunctionDef):
@@ -296,7 +298,9 @@ class Desugarer:
             return [ast.copy_location(n, s)]
         if isinstance(s, ast.Raise):
             e = self.hoist(s.exc, pre) if s.exc is not None else None
-            return pre + [ast.copy_location(ast.Raise(exc=e, cause=None), s)]
+            nr = ast.copy_location(ast.Raise(exc=e, cause=None), s)
+            nr._raise_id = getattr(s, "_raise_id", None)
+            return pre + [nr]
         if isinstance(s, ast.Assert):
             t = self.hoist(s.test, pre)
             return pre + [ast.copy_location(ast.Assert(test=t, msg=None), s)]
